@@ -113,6 +113,10 @@ def catalogue():
         ("number-huge-finite-to-sexagesimal-format", new_vec("Number", "DEV", "NUMBER_V", [one_child("Number", "N2", "1e308")]), {("NUMBER_V", "N2")}),
         ("number-huge-negative-to-sexagesimal-format", new_vec("Number", "DEV", "NUMBER_V", [one_child("Number", "N2", "-9e307")]), {("NUMBER_V", "N2")}),
         ("number-huge-finite-to-printf-format", new_vec("Number", "DEV", "NUMBER_V", [one_child("Number", "N0", "1e308")]), {("NUMBER_V", "N0")}),
+        # digits only, no exponent: the value is an integer beyond the float range
+        ("number-400-digit-integer-to-printf-format", new_vec("Number", "DEV", "NUMBER_V", [one_child("Number", "N0", "1" + "0" * 400)]), {("NUMBER_V", "N0")}),
+        ("number-400-digit-integer-to-sexagesimal-format", new_vec("Number", "DEV", "NUMBER_V", [one_child("Number", "N2", "-" + "9" * 400)]), {("NUMBER_V", "N2")}),
+        ("number-400-digit-fraction", new_vec("Number", "DEV", "NUMBER_V", [one_child("Number", "N0", "0." + "0" * 400 + "1")]), {("NUMBER_V", "N0")}),
         ("number-tiny-to-sexagesimal-format", new_vec("Number", "DEV", "NUMBER_V", [one_child("Number", "N2", "1e-320")]), {("NUMBER_V", "N2")}),
         ("number-huge-sexagesimal", new_vec("Number", "DEV", "NUMBER_V", [one_child("Number", "N0", "1e400:30")]), set()),
         ("number-underscore-as-text", new_vec("Text", "DEV", "NUMBER_V", [one_child("Text", "N0", "1_000")]), {("NUMBER_V", "N0")}),
